@@ -15,8 +15,23 @@ Proved here, for ALL file sets, workspace roots, requiring files and module stri
    name/init.lua), so the type-6 diagnostic appears exactly when the documented mapping finds nothing.
 -/
 import LuaHelper.Model.Mod
+import LuaHelper.Gen.Shapes
 namespace LuaHelper.C18
 open LuaHelper.Mod
+
+/-- the code the model was written after, as it stands in /repo now (regenerated on every run): the
+    order of look-ups in CheckReferFile (suffix mode: exact, fuzzy, report; full-path mode: .so, .lua,
+    init.lua, report; default mode: .so, fuzzy name, fuzzy name/init.lua, report), the literals it
+    appends, and the constants of calcMatchStrScore (−1000000 no match, −1000 per directory, +10 per
+    shared leading directory) -/
+theorem resolution_code_shape :
+    Gen.referAttempts =
+      ["MatchCompleteReferFile", "GetBestMatchReferFile", "InsertError",
+       "MatchAllDirReferFile", "MatchAllDirReferFile", "MatchAllDirReferFile", "InsertError",
+       "MatchAllDirReferFile", "GetBestMatchReferFile", "GetBestMatchReferFile", "InsertError"] ∧
+    Gen.referLiterals = [".", "/", ".so", ".lua", "/init.lua", ".so", "/init.lua"] ∧
+    Gen.scoreConsts = ["0", "1", "1000000", "0", "1000", "10"] := by decide
+#print axioms resolution_code_shape
 
 /-! ### selection among candidates -/
 
